@@ -30,6 +30,9 @@ class PathFacts:
             if isinstance(a, ast.Starred) and isinstance(a.value, ast.Name):
                 v = env.get(a.value.id)
                 return v[0] if isinstance(v, tuple) and v else None
+            if isinstance(a, ast.Starred) and isinstance(a.value, ast.Attribute):
+                v = const_values(p, a, fn)
+                return v[0] if v else None
             if isinstance(a, ast.Name):
                 return env.get(a.id)
             return None  # self.fail_code etc. are resolved by the wrapper rule
@@ -80,6 +83,13 @@ class PathFacts:
                 if isinstance(tg, ast.Tuple) and isinstance(n.value, ast.Tuple) and len(tg.elts) == len(n.value.elts):
                     for t, v in zip(tg.elts, n.value.elts):
                         bind(t, v)
+                elif isinstance(tg, ast.Tuple) and isinstance(n.value, ast.Attribute) and isinstance(n.value.value, ast.Name) and n.value.value.id in ("self", "cls"):
+                    cc = p.enclosing_class(fn) or p.enclosing_class(p.enclosing_function(fn) or fn)
+                    tv = p.class_attr_const(cc.name, n.value.attr) if cc is not None else None
+                    if isinstance(tv, tuple) and len(tv) == len(tg.elts):
+                        for t, v in zip(tg.elts, tv):
+                            if isinstance(t, ast.Name):
+                                env[t.id] = v if isinstance(v, (str, int, bool)) else None
                 elif isinstance(tg, ast.Name):
                     bind(tg, n.value)
                     if isinstance(n.value, ast.IfExp):
